@@ -453,8 +453,52 @@ def c17(case, out):
     return None
 
 
+# ------------------------------------------------------------------ C10
+C10_DEFS = """
+Definition xref (k : N) (de : bool) (iv0 m out : list N) := leqb (toy_ref k de iv0 m) out.
+Definition xblk (k : N) (b out : list N) := leqb (toyE k b) out.
+Definition xstep_eqb (a : option (state * list N)) (b : option (list N * list N * N)) : bool :=
+  match a, b with
+  | None, None => true
+  | Some (st, out), Some (o, i, p) => leqb out o && leqb (iv st) i && N.eqb (N.of_nat (pos st)) p
+  | _, _ => false end.
+Fixpoint xsteps (a : list (option (state * list N))) (b : list (option (list N * list N * N))) : bool :=
+  match a, b with [], [] => true | x :: a', y :: b' => xstep_eqb x y && xsteps a' b' | _, _ => false end.
+Definition xseq (k : N) (de : bool) (iv0 : list N) (cs : list call) (e : list (option (list N * list N * N))) :=
+  xsteps (toy_trace k de iv0 cs) e.
+"""
+
+
+def c10(case, out):
+    c, o = case.split(), out.split()
+    if not c or not o or c[0] != o[0]:
+        return None
+    b = lambda x: "true" if x == "1" else "false"
+    if c[0] == "ref" and len(c) == 5 and len(o) == 2:
+        return "xref %s %s %s %s %s" % (nlit(c[2]), b(c[1]), bytes_of_hex(c[3]), bytes_of_hex(c[4]), bytes_of_hex(o[1]))
+    if c[0] == "blk" and len(c) == 3 and len(o) == 2:
+        return "xblk %s %s %s" % (nlit(c[1]), bytes_of_hex(c[2]), bytes_of_hex(o[1]))
+    if c[0] == "seq" and len(c) >= 4 and (len(c) - 4) % 3 == 0 and len(o) - 1 == (len(c) - 4) // 3:
+        calls = []
+        for i in range(4, len(c), 3):
+            if c[i] not in ("i", "d"):
+                return None
+            calls.append("{| c_alias := %s; c_src := %s; c_dst := %s |}" % ("InPlace" if c[i] == "i" else "Disjoint", bytes_of_hex(c[i + 1]), bytes_of_hex(c[i + 2])))
+        exp = []
+        for t in o[1:]:
+            if t == "panic":
+                exp.append("None")
+            else:
+                p = t.split(":")
+                if len(p) != 3:
+                    return None
+                exp.append("Some (%s, %s, %s)" % (bytes_of_hex(p[0]), bytes_of_hex(p[1]), nlit(p[2])))
+        return "xseq %s %s %s [%s] [%s]" % (nlit(c[2]), b(c[1]), bytes_of_hex(c[3]), "; ".join(calls), "; ".join(exp))
+    return None
+
+
 TABLE = {"C05": ("C05", C05_DEFS, c05), "C11": ("C11", C11_DEFS, c11), "C16": ("C16", C16_DEFS, c16),
-         "C17": ("C17", C17_DEFS, c17)}
+         "C17": ("C17", C17_DEFS, c17), "C10": ("C10", C10_DEFS, c10)}
 
 
 def main():
